@@ -141,11 +141,14 @@ impl<TCompilationProfile: CompilationProfile> IsographDatabase<TCompilationProfi
     }
 
     pub fn remove_iso_literals_from_path(&mut self, relative_path: &str) {
+        // Compare path components, not characters: removing `src/a` must not
+        // remove `src/ab/file.ts`, and removing `x.ts` must not remove `x.tsx`.
+        let relative_path = std::path::Path::new(relative_path);
         let removed_source_ids = self
             .get_iso_literal_map_mut()
             .tracked()
             .0
-            .extract_if(|k, _| k.to_string().starts_with(relative_path))
+            .extract_if(|k, _| std::path::Path::new(k.lookup()).starts_with(relative_path))
             .map(|(_, v)| v)
             .collect::<Vec<_>>();
 
